@@ -227,6 +227,16 @@ pub fn tree_worker(prop: &str, tier: &str, k: usize, n: usize, ctx: &mut Ctx) {
         });
         crate::clear_current_case();
       }
+      {
+        let mut st = Striper::new(k, n);
+        for_each_far_replacement_tree(tier, &mut st, &mut |w| {
+          crate::set_current_case(w);
+          ctx.states += 1;
+          ctx.count("far_replacement_family_trees");
+          tc::c01(ctx, w);
+        });
+        crate::clear_current_case();
+      }
       // SourceMapSource with an inner map whose segments, source and name indices point outside the
       // text or the tables (the combined-map streamer forwards the text itself, so a chunk it drops on
       // an undeclared index is text missing from the stream)
@@ -280,6 +290,21 @@ pub fn tree_worker(prop: &str, tier: &str, k: usize, n: usize, ctx: &mut Ctx) {
         ctx.states += 1;
         ctx.count("combined_map_leaves");
         tc::c03(ctx, t);
+        // the same with an outer sourceRoot: the outer map lists the inner source relative to the root,
+        // the SourceMapSource is named by the joined path (map() and the stream must agree on what
+        // "the inner source" is)
+        if tier == "thorough" || cnt % 2 == 0 {
+          if let Term::Sms(spec) = t {
+            let mut s2 = (**spec).clone();
+            s2.map.root = Some("src".into());
+            s2.name = format!("src/{}", s2.name);
+            let t2 = Term::Sms(Box::new(s2));
+            crate::set_current_case(&t2);
+            ctx.states += 1;
+            ctx.count("combined_map_leaves_with_source_root");
+            tc::c03(ctx, &t2);
+          }
+        }
       });
       crate::clear_current_case();
     }
@@ -640,6 +665,8 @@ pub fn c06_pool(tier: &str) -> (Vec<Term>, Vec<Term>) {
     use crate::refcodec::Seg;
     pool.push(Term::sms("cd.e", "tail.js", trees::map_spec(vec![Seg { gl: 1, gc: 0, orig: Some((0, 2, 0, None)) }], true)));
     pool.push(Term::sms("d.e", "tail1.js", trees::map_spec(vec![Seg { gl: 1, gc: 0, orig: Some((0, 2, 1, None)) }], true)));
+    // names used in an order other than that of the table (index 1 before index 0)
+    pool.push(Term::sms("ab\n", "nameorder.js", trees::map_spec(vec![Seg { gl: 1, gc: 0, orig: Some((0, 1, 0, Some(1))) }, Seg { gl: 1, gc: 1, orig: Some((0, 1, 1, Some(0))) }], true)));
     pool.push(Term::sms("ab.x\ncd", "tail2.js", trees::map_spec(vec![Seg { gl: 1, gc: 0, orig: Some((0, 1, 0, None)) }, Seg { gl: 2, gc: 0, orig: Some((0, 2, 0, None)) }], true)));
   }
   // reduced pool for triples / nesting / composite inners
@@ -1028,6 +1055,55 @@ pub fn for_each_far_column_tree(tier: &str, st: &mut Striper, visit: &mut dyn Fn
   }
 }
 
+/// Replacement positions FAR beyond the text (legal, clamped): every pair of ranges whose ends come
+/// from the char boundaries of the text plus len+1, 2^31, u32::MAX-1, u32::MAX, over mapped, raw and
+/// multi-byte leaves, alone / before a sibling / below a second ReplaceSource / cached. The
+/// streaming code computes "bytes still to skip" from the replacement's end.
+pub fn for_each_far_replacement_tree(tier: &str, st: &mut Striper, visit: &mut dyn FnMut(&Term)) {
+  use crate::refcodec::Seg;
+  use crate::term::Repl;
+  let thorough = tier == "thorough";
+  let named = Term::sms("ab\ncd", "farpos.js", trees::map_spec(vec![Seg { gl: 1, gc: 0, orig: Some(K_B) }, Seg { gl: 2, gc: 1, orig: Some(K_A) }], true));
+  let leaves = [Term::orig("ab\ncd", "farpos-o.js"), named, Term::raw("ab\ncd"), Term::orig("é;b\n", "farpos-mb.js")];
+  let contents: &[&str] = if thorough { &["X", "", "\nZ"] } else { &["X", "\nZ"] };
+  for leaf in &leaves {
+    let text = crate::model::model_text(leaf);
+    let len = text.len() as u32;
+    let mut ladder: Vec<u32> = (0..=len).filter(|p| text.is_char_boundary(*p as usize)).collect();
+    ladder.extend([len + 1, 1 << 31, u32::MAX - 1, u32::MAX]);
+    let mut ranges: Vec<(u32, u32)> = Vec::new();
+    for (i, a) in ladder.iter().enumerate() {
+      for b in &ladder[i..] {
+        ranges.push((*a, *b));
+      }
+    }
+    for &(s1, e1) in &ranges {
+      for &(s2, e2) in &ranges {
+        if !st.mine() {
+          continue;
+        }
+        // at least one of the four positions is far
+        if [s1, e1, s2, e2].iter().all(|p| *p <= len + 1) {
+          continue;
+        }
+        for c1 in contents {
+          for c2 in ["", "Y"] {
+            let inner = Term::replace(leaf.clone(), vec![Repl::new(s1, e1, c1), Repl::new(s2, e2, c2)]);
+            visit(&inner);
+            visit(&Term::concat(vec![inner.clone(), Term::orig("q;r", "farpos-sib.js")]));
+            // (the outer position stays on a char boundary of the inner result)
+            let first = crate::model::model_text(&inner).chars().next().map(|c| c.len_utf8()).unwrap_or(1) as u32;
+            visit(&Term::replace(inner.clone(), vec![Repl::new(0, first, "W")]));
+            if thorough {
+              visit(&Term::cached(inner.clone()));
+            }
+          }
+        }
+      }
+    }
+  }
+}
+
 pub fn c17_tree_worker(tier: &str, k: usize, n: usize, ctx: &mut Ctx) {
   {
     let mut st = Striper::new(k, n);
@@ -1129,6 +1205,16 @@ pub fn c17_tree_worker(tier: &str, k: usize, n: usize, ctx: &mut Ctx) {
       crate::set_current_case(w);
       ctx.states += 1;
       ctx.count("far_column_family_trees");
+      tc::all_methods_return(ctx, w);
+    });
+    crate::clear_current_case();
+  }
+  {
+    let mut st = Striper::new(k, n);
+    for_each_far_replacement_tree(tier, &mut st, &mut |w| {
+      crate::set_current_case(w);
+      ctx.states += 1;
+      ctx.count("far_replacement_family_trees");
       tc::all_methods_return(ctx, w);
     });
     crate::clear_current_case();
